@@ -23,7 +23,7 @@ use prost::{DecodeError, Message};
 use crate::proto::command::ListenersCount;
 
 pub const MAX_FDS_OUT: usize = 200;
-pub const MAX_BYTES_OUT: usize = 4096;
+pub const MAX_BYTES_OUT: usize = 16384;
 
 #[derive(thiserror::Error, Debug)]
 pub enum ScmSocketError {
